@@ -17,7 +17,7 @@ func init() { Register(c15{}) }
 
 func (c15) Name() string { return "c15" }
 func (c15) Rule() string {
-	return "one generated world per run (workspace or not; main.journal including a.journal and b.journal; >= 2 commodities out of balance in one transaction; payees shared between files with different posting templates; accounts, tags and dates with equal usage counts; 2..3 open documents) and one fixed script of requests (completion in account/payee/commodity/tag/date context, hover, definition, references, rename, documentSymbol, workspace/symbol, inlineCompletion, formatting, semanticTokens, foldingRange), each request issued twice. The script runs on V fresh servers (V = 6 quick, 16 thorough): variant 0 with canonical (sorted) map iteration and sequential scheduling, the others with a seeded permutation of EVERY map iteration of the repository's code (and sync.Map.Range) and a seeded background schedule. Oracle: the canonical serialisation of everything the client received at quiescent points (each response, last diagnostics per URI including message text) is identical across variants and between the two repetitions. On a mismatch the permutation is narrowed to single range sites to name the culprit statements. Non-trivial: >= 1 variant applied a permutation at a site that was reached. Distinct: hash of the world + set of sites permuted."
+	return "one generated world per run (workspace or not; main.journal including a.journal and b.journal; >= 2 commodities out of balance in one transaction; payees shared between files with different posting templates; accounts, tags and dates with equal usage counts; 2..3 open documents) and one fixed script of requests (completion in account/payee/commodity/tag/date context, hover, definition, references, rename, documentSymbol, workspace/symbol, inlineCompletion, formatting, semanticTokens, foldingRange), each request issued twice; in 40% of the runs the root journal first drops its include lines and takes them back (both included files re-enter the tree with one edit). The script runs on V fresh servers (V = 6 quick, 16 thorough): variant 0 with canonical (sorted) map iteration and sequential scheduling, the others with a seeded permutation of EVERY map iteration of the repository's code (and sync.Map.Range) and a seeded background schedule. Oracle: the canonical serialisation of everything the client received at quiescent points (each response, last diagnostics per URI including message text) is identical across variants and between the two repetitions. On a mismatch the permutation is narrowed to single range sites to name the culprit statements. Non-trivial: >= 1 variant applied a permutation at a site that was reached. Distinct: hash of the world + set of sites permuted."
 }
 func (c15) Enumerated(string) int           { return 0 }
 func (c15) Components() ([]string, []string) { return serverComponents() }
@@ -137,6 +137,7 @@ type c15variant struct {
 	only   string // "" = all sites
 	policy int
 	chunk  bool
+	flap   bool // the root journal drops its include lines and takes them back before the requests
 }
 
 // c15Transcript runs the script on a fresh server.
@@ -171,6 +172,24 @@ func c15Transcript(ctx *RunCtx, c *simrt.Chooser, env *Env, root string, docs []
 	}
 	if !d.Quiesce() {
 		return nil, nil, "no quiescence: " + d.Deadlock
+	}
+	if v.flap {
+		// both included files leave the tree and re-enter it with one edit: the
+		// state afterwards is the same fixed set of contents
+		var keep []string
+		for _, l := range strings.Split(docs[0].Text, "\n") {
+			if !strings.HasPrefix(l, "include ") {
+				keep = append(keep, l)
+			}
+		}
+		d.Notify("textDocument/didChange", J{"textDocument": J{"uri": docs[0].URI, "version": 2}, "contentChanges": []J{{"text": strings.Join(keep, "\n")}}})
+		if v.policy != PolBgFirst {
+			d.PumpN(c.Choose("steps", 12))
+		}
+		d.Notify("textDocument/didChange", J{"textDocument": J{"uri": docs[0].URI, "version": 3}, "contentChanges": []J{{"text": docs[0].Text}}})
+		if !d.Quiesce() {
+			return nil, nil, "no quiescence: " + d.Deadlock
+		}
 	}
 	for _, rq := range reqs {
 		for rep := 0; rep < 2; rep++ {
@@ -220,7 +239,11 @@ func (c15) Run(ctx *RunCtx) {
 		ctx.Fail(&Violation{Property: "C15", Oracle: "variant-equality", Class: class, Msg: msg, Witness: wit})
 	}
 	zero := simrt.NewReplayChooser(nil)
-	base, sites, trouble := c15Transcript(ctx, zero, env, root, docs, reqs, c15variant{policy: PolBgFirst}, false)
+	flap := c.Pct("flap-includes", 40)
+	if flap {
+		ctx.T("before the requests main.journal drops its include lines and takes them back (didChange x2)")
+	}
+	base, sites, trouble := c15Transcript(ctx, zero, env, root, docs, reqs, c15variant{policy: PolBgFirst, flap: flap}, false)
 	if trouble != "" {
 		fail("script-failed", "canonical variant: "+trouble, nil)
 		return
@@ -238,7 +261,7 @@ func (c15) Run(ctx *RunCtx) {
 	}
 	permutedReached := false
 	for v := 1; v <= nv; v++ {
-		variant := c15variant{salt: uint64(1 + c.Choose("salt", 1<<20)), policy: c.Choose("policy", numPolicies), chunk: false}
+		variant := c15variant{salt: uint64(1 + c.Choose("salt", 1<<20)), policy: c.Choose("policy", numPolicies), chunk: false, flap: flap}
 		mode := "all sites"
 		if len(sites) > 0 && c.Pct("single-site", 30) {
 			variant.only = sites[c.Choose("site", len(sites))]
@@ -264,7 +287,7 @@ func (c15) Run(ctx *RunCtx) {
 				var culprits []string
 				if variant.only == "" {
 					for _, s := range vsites {
-						one, _, tr := c15Transcript(ctx, simrt.NewReplayChooser(nil), env, root, docs, reqs, c15variant{salt: variant.salt, only: s, policy: PolBgFirst}, false)
+						one, _, tr := c15Transcript(ctx, simrt.NewReplayChooser(nil), env, root, docs, reqs, c15variant{salt: variant.salt, only: s, policy: PolBgFirst, flap: flap}, false)
 						if tr == "" && (i >= len(one) || one[i] != base[i]) {
 							culprits = append(culprits, s)
 						}
@@ -272,7 +295,7 @@ func (c15) Run(ctx *RunCtx) {
 				} else {
 					culprits = []string{variant.only}
 				}
-				schedOnly, _, _ := c15Transcript(ctx, simrt.NewReplayChooser(nil), env, root, docs, reqs, c15variant{salt: variant.salt, only: variant.only, policy: PolBgFirst}, false)
+				schedOnly, _, _ := c15Transcript(ctx, simrt.NewReplayChooser(nil), env, root, docs, reqs, c15variant{salt: variant.salt, only: variant.only, policy: PolBgFirst, flap: flap}, false)
 				cause := "map iteration order"
 				if i < len(schedOnly) && schedOnly[i] == base[i] && len(culprits) == 0 {
 					cause = "background schedule"
